@@ -6,6 +6,8 @@ From CF Require Import C12.Proofs_upload.
 From CF Require Import C12.Proofs_write.
 From CF Require Import C12.Proofs_flash.
 From CF Require Import C12.Proofs.
+From CF Require Import C12.Session.
+From CF Require Import C12.Proofs_session.
 Open Scope Z_scope.
 
 (* target 0xFF: 4-byte pages, 2 buffer pages, 6 flash pages, start page 1; a 10-byte image (3 pages:
@@ -48,4 +50,44 @@ Proof. cbn. repeat constructor. Qed.
 
 (* a refused image: 21 bytes into 5 pages of 4 *)
 Example ex_refused : fst (fst (fst (internal_flash 255 4 2 6 1 None (repeat 0 21) [] []))) = Refused.
+Proof. vm_compute. reflexivity. Qed.
+
+(* ---- round 2 ---- *)
+(* nRF51 target: 4-byte pages, 1 buffer page, 8 flash pages, start page 2; an 8-byte (2-page) sd+bl image:
+   first firmware page erased, image in pages 6..7; one flash-write reply lost on the way *)
+Definition exN : target := mkT 254 4 1 8 [0;0;0;0] (repeat 7 32) false.
+Definition exSd : list Z := [1;2;3;4;5;6;7;8].
+Definition exSdRun := flash_sdbl 4 1 8 2 exSd [] [mkA true [] []].
+
+Example ex_sd_pre : run_pre exN 2 (repeat 255 (Z.to_nat 4)).
+Proof. unfold run_pre, geom_ok. repeat split; try reflexivity; vm_compute; discriminate. Qed.
+
+Example ex_sd_done : fst (fst (fst exSdRun)) = Done /\ sdbl_page 8 4 (zlen exSd) = 6.
+Proof. vm_compute. split; reflexivity. Qed.
+
+Example ex_sd_flash : t_flash (deliver exN (snd exSdRun)) =
+  [7;7;7;7; 7;7;7;7; 255;255;255;255; 7;7;7;7; 7;7;7;7; 7;7;7;7; 1;2;3;4; 5;6;7;8].
+Proof. vm_compute. reflexivity. Qed.
+
+(* an image that is not a whole number of pages is refused after the erase *)
+Example ex_sd_refused : fst (fst (fst (flash_sdbl 4 1 8 2 [1;2;3;4;5] [] []))) = Refused.
+Proof. vm_compute. reflexivity. Qed.
+
+(* negative override: struct.error, only loads were sent *)
+Example ex_bad_override :
+  fst (fst (fst (internal_flash 255 4 2 6 1 (Some (-1)) exImage [] []))) = Raised StructError /\
+  length (snd (internal_flash 255 4 2 6 1 (Some (-1)) exImage [] [])) = 2%nat.
+Proof. vm_compute. split; reflexivity. Qed.
+
+(* the STM32 info packet of a Crazyflie 2: 1024-byte pages, 10 buffer pages, 1024 flash pages, start page 16 *)
+Example ex_info :
+  match parse_info 255 (info_packet 255 1024 10 1024 16 (repeat 0 12) [16]) with
+  | POk i => (i_ps i, i_bp i, i_fp i, i_sp i, i_pv i) = (1024, 10, 1024, 16, Some 16)
+  | _ => False
+  end.
+Proof. vm_compute. reflexivity. Qed.
+
+Example ex_update_info :
+  fst (fst (update_info 254 255 [None; Some (255, [255; 16]); Some (info_packet 254 1024 1 232 88 (repeat 0 12) [16])])) =
+  UTrue (mkInfo 1024 1 232 88 (repeat 0 12) (Some 16) None) false.
 Proof. vm_compute. reflexivity. Qed.
